@@ -374,6 +374,8 @@ def _binary_search(I, items, cmp, v):
 def _range_of(I, rng, n, panic=True):
     """(start,end) for a Range* Adt against length n"""
     rng = deref1(rng)
+    if not isinstance(rng, Adt) and hasattr(rng, 'path') and str(rng.path).split('::')[-1] == 'RangeFull':
+        rng = Adt('RangeFull', 0, [])      # the unit struct written as a bare constant
     name = rng.name
     f = rng.fields
     if name == 'RangeFull':
